@@ -148,14 +148,21 @@ class Blocking(O.Monitor):
             for i in O.customers(nd):
                 where[id(i)] = nd
         pops = {nd.id_number: len(O.customers(nd)) for nd in Q.transitive_nodes}
+        for nid_, p_ in pops.items():
+            cap_ = self.capacity(Q, nid_)
+            if cap_ != float("inf") and p_ - cap_ > self.activity.get("max_overfull", 0):
+                self.activity["max_overfull"] = p_ - cap_
         # completions observed in this event
         log = Q.obslog
         finished = []
+        bypass = set()          # destinations entered in this event by customers that ignore capacities (re-routed / jockeying)
         while self.k < len(log):
             e = log[self.k]
             self.k += 1
             if e[0] == "route" and e[8] == "next":
                 finished.append(e)
+            elif e[0] == "route":
+                bypass.add(e[5])
         for e in finished:
             ind, src, dest = e[3], e[2], e[5]
             if id(ind) in self.blocked:
@@ -178,6 +185,12 @@ class Blocking(O.Monitor):
         n_rel = 0
         for dest, bs in released.items():
             q = self.model[dest]
+            # a blocked customer is let in only when there is room for it: right after the event the destination holds no more than its capacity
+            # (unless capacity-ignoring customers entered it in the same event, or the released customer has already moved on)
+            cap_d = self.capacity(Q, dest)
+            if dest not in bypass and pops.get(dest, 0) > cap_d and any(where.get(id(b["ind"])) is not None and where[id(b["ind"])].id_number == dest for b in bs):
+                rep("unblocked-only-into-free-space", {"destination": dest, "population": pops.get(dest), "capacity": cap_d,
+                                                       "entered": [b["ind"].id_number for b in bs]})
             head = q[:len(bs)]
             if set(id(b["ind"]) for b in bs) != set(id(x) for x in head):
                 rep("longest-blocked-enters-first", {"destination": dest, "entered": sorted(b["ind"].id_number for b in bs),
@@ -191,7 +204,10 @@ class Blocking(O.Monitor):
                 q[:] = [x for x in q if x is not ind]
                 nd_now = where.get(id(ind))
                 at = nd_now.id_number if nd_now is not None else -1
-                if at != dest:
+                # ... unless it was pre-empted there and re-routed onwards within the same event (then it left an interruption record)
+                moved_on = any(r.node == dest and r.exit_date == t and r.arrival_date == t and r.record_type == "interrupted service"
+                               for r in ind.data_records[-3:])
+                if at != dest and not moved_on:
                     rep("unblocked-customer-is-at-its-destination", {"customer": ind.id_number, "destination": dest, "at": at})
                 # blocked for exactly the time until it moved
                 recs = [r for r in ind.data_records if r.record_type == "service" and r.node == b["node"]]
